@@ -1,3 +1,776 @@
 (* Proofs about the workspace/file model: frame (C09), the representation invariant (C01/C02), the loader. *)
 From GV Require Import Prelude.Base Model.WsX Model.WsXSpec Proofs.WsXFile Proofs.WsXTree.
 From Coq Require Import Permutation.
+
+(* ======================================================================================================== *)
+(* Part A — frame properties, unconditional                                                                  *)
+(* ======================================================================================================== *)
+
+Definition frame_ok (t : tree) : Prop :=
+  forall p f y, y <> p -> ~ In y (keys_of t) -> fget y (flat (save_tree p t f)) = fget y (flat f).
+
+Lemma save_kids_frame k l y : Forall frame_ok l -> y <> k -> ~ In y (flat_map keys_of l) ->
+  forall f, fget y (flat (save_kids k l f)) = fget y (flat f).
+Proof.
+  intros H Hk. induction H as [|c r Hc Hr IHr]; intros Hl f; [reflexivity|].
+  simpl in Hl. unfold save_kids in *. simpl. rewrite IHr.
+  - apply Hc; [exact Hk | intros Hy; apply Hl; apply in_or_app; left; exact Hy].
+  - intros Hy. apply Hl. apply in_or_app. right. exact Hy.
+Qed.
+
+Lemma save_tree_frame t : frame_ok t.
+Proof.
+  induction t as [k a l IH] using tree_ind'. intros p f y Hp Hy. rewrite save_tree_eq.
+  rewrite w_link_frame by exact Hp. rewrite keys_of_eq in Hy.
+  assert (Hk : y <> k) by (intros ->; apply Hy; left; reflexivity).
+  rewrite save_kids_frame; [apply w_entity_frame; exact Hk | exact IH | exact Hk |].
+  intros Hl. apply Hy. right. exact Hl.
+Qed.
+
+Lemma save_kids_frame' k l y f : y <> k -> ~ In y (flat_map keys_of l) ->
+  fget y (flat (save_kids k l f)) = fget y (flat f).
+Proof.
+  intros Hk Hl. apply save_kids_frame; [|exact Hk | exact Hl].
+  apply Forall_forall. intros c _. apply save_tree_frame.
+Qed.
+
+Lemma save_kids_rootlink k l : (forall c p f, In c l -> rootlink (save_tree p c f) = rootlink f) ->
+  forall f, rootlink (save_kids k l f) = rootlink f.
+Proof.
+  induction l as [|c r IH]; intros H f; [reflexivity|].
+  unfold save_kids in *. simpl. rewrite IH.
+  - apply H. left. reflexivity.
+  - intros c' p' f' Hc'. apply H. right. exact Hc'.
+Qed.
+
+Lemma save_tree_rootlink t : forall p f, rootlink (save_tree p t f) = rootlink f.
+Proof.
+  induction t as [k a l IH] using tree_ind'. intros p f. rewrite save_tree_eq, w_link_rootlink.
+  rewrite save_kids_rootlink; [apply w_entity_rootlink|].
+  rewrite Forall_forall in IH. intros c p' f' Hc. apply IH. exact Hc.
+Qed.
+
+Definition rm_frame_ok (t : tree) : Prop :=
+  forall p ppgs f y, y <> p -> ~ In y (keys_of t) -> fget y (flat (fst (rm_ws p ppgs t f))) = fget y (flat f).
+
+Lemma rm_list_frame k l y : Forall rm_frame_ok l -> y <> k -> ~ In y (flat_map keys_of l) ->
+  forall st, fget y (flat (fst (fst (rm_list k l st)))) = fget y (flat (fst st)).
+Proof.
+  intros H Hk. induction H as [|c r Hc Hr IHr]; intros Hl st; [reflexivity|].
+  simpl in Hl. simpl. destruct st as [f pgs]. pose proof (Hc k pgs f y Hk) as Hc'.
+  destruct (rm_ws k pgs c f) as [f' ok]. simpl in Hc'.
+  assert (E : fget y (flat f') = fget y (flat f)).
+  { apply Hc'. intros Hy. apply Hl. apply in_or_app. left. exact Hy. }
+  destruct ok; simpl; [|exact E].
+  rewrite IHr; [exact E|]. intros Hy. apply Hl. apply in_or_app. right. exact Hy.
+Qed.
+
+Lemma kd_wscrub_frame p k ppgs f y : y <> p -> fget y (flat (kd_wscrub p k ppgs f)) = fget y (flat f).
+Proof. intros H. unfold kd_wscrub. destruct (fst k); try reflexivity. apply w_scrub_frame. exact H. Qed.
+Lemma kd_wscrub_rootlink p k ppgs f : rootlink (kd_wscrub p k ppgs f) = rootlink f.
+Proof. unfold kd_wscrub. destruct (fst k); try reflexivity. apply w_scrub_rootlink. Qed.
+Lemma kd_wscrub_nodup p k ppgs f : NoDup (map fst (flat f)) -> NoDup (map fst (flat (kd_wscrub p k ppgs f))).
+Proof. intros H. unfold kd_wscrub. destruct (fst k); try exact H. apply w_scrub_nodup. exact H. Qed.
+
+Lemma rm_ws_frame t : rm_frame_ok t.
+Proof.
+  induction t as [k a l IH] using tree_ind'. intros p ppgs f y Hp Hy. rewrite rm_ws_eq.
+  destruct (negb (adel a)); [reflexivity|]. rewrite keys_of_eq in Hy.
+  assert (Hk : y <> k) by (intros ->; apply Hy; left; reflexivity).
+  assert (Hl : ~ In y (flat_map keys_of l)) by (intros Hl; apply Hy; right; exact Hl).
+  pose proof (rm_list_frame k l y IH Hk Hl (f, apgs a)) as E.
+  destruct (rm_list k l (f, apgs a)) as [[f1 pgs1] ok]. simpl in E. destruct ok; simpl; [|exact E].
+  rewrite fget_fdel_other by exact Hk. rewrite w_unlink_frame by exact Hp. rewrite kd_wscrub_frame by exact Hp. exact E.
+Qed.
+
+Definition rm_rootlink_ok (t : tree) : Prop := forall p ppgs f, rootlink (fst (rm_ws p ppgs t f)) = rootlink f.
+
+Lemma rm_list_rootlink k l : Forall rm_rootlink_ok l -> forall st, rootlink (fst (fst (rm_list k l st))) = rootlink (fst st).
+Proof.
+  intros H. induction H as [|c r Hc Hr IHr]; intros st; [reflexivity|].
+  simpl. destruct st as [f pgs]. pose proof (Hc k pgs f) as Hc'. destruct (rm_ws k pgs c f) as [f' ok]. simpl in Hc'.
+  destruct ok; simpl; [rewrite IHr; exact Hc' | exact Hc'].
+Qed.
+
+Lemma rm_ws_rootlink t : rm_rootlink_ok t.
+Proof.
+  induction t as [k a l IH] using tree_ind'. intros p ppgs f. rewrite rm_ws_eq.
+  destruct (negb (adel a)); [reflexivity|].
+  pose proof (rm_list_rootlink k l IH (f, apgs a)) as E. destruct (rm_list k l (f, apgs a)) as [[f1 pgs1] ok]. simpl in E.
+  destruct ok; simpl; [|exact E]. rewrite w_unlink_rootlink, kd_wscrub_rootlink. exact E.
+Qed.
+
+(* copies *)
+Lemma put_all_frame k pgs y : y <> k -> forall f, fget y (flat (put_all k pgs f)) = fget y (flat f).
+Proof.
+  intros H. induction pgs as [|g r IH]; intros f; [reflexivity|].
+  unfold put_all in *. simpl. rewrite IH. apply w_pg_put_frame. exact H.
+Qed.
+Lemma put_all_rootlink k pgs : forall f, rootlink (put_all k pgs f) = rootlink f.
+Proof.
+  induction pgs as [|g r IH]; intros f; [reflexivity|]. unfold put_all in *. simpl. rewrite IH. apply w_pg_put_rootlink.
+Qed.
+Lemma put_all_nodup k pgs : forall f, NoDup (map fst (flat f)) -> NoDup (map fst (flat (put_all k pgs f))).
+Proof.
+  induction pgs as [|g r IH]; intros f H; [exact H|]. unfold put_all in *. simpl. apply IH. apply w_pg_put_nodup. exact H.
+Qed.
+
+Definition copy_frame_ok (t : tree) : Prop :=
+  forall p f y, y <> p -> ~ In y (keys_of t) -> fget y (flat (save_copy p t f)) = fget y (flat f).
+
+Lemma copy_kids_frame k l y : Forall copy_frame_ok l -> y <> k -> ~ In y (flat_map keys_of l) ->
+  forall f, fget y (flat (copy_kids k l f)) = fget y (flat f).
+Proof.
+  intros H Hk. induction H as [|c r Hc Hr IHr]; intros Hl f; [reflexivity|].
+  simpl in Hl. unfold copy_kids in *. simpl. rewrite IHr.
+  - apply Hc; [exact Hk | intros Hy; apply Hl; apply in_or_app; left; exact Hy].
+  - intros Hy. apply Hl. apply in_or_app. right. exact Hy.
+Qed.
+
+Lemma save_copy_frame t : copy_frame_ok t.
+Proof.
+  induction t as [k a l IH] using tree_ind'. intros p f y Hp Hy. rewrite save_copy_eq. rewrite keys_of_eq in Hy.
+  assert (Hk : y <> k) by (intros ->; apply Hy; left; reflexivity).
+  rewrite put_all_frame by exact Hk.
+  rewrite copy_kids_frame; [| exact IH | exact Hk | intros Hl; apply Hy; right; exact Hl].
+  rewrite w_link_frame by exact Hp. apply w_entity_frame. exact Hk.
+Qed.
+
+Lemma copy_kids_rootlink k l : (forall c p f, In c l -> rootlink (save_copy p c f) = rootlink f) ->
+  forall f, rootlink (copy_kids k l f) = rootlink f.
+Proof.
+  induction l as [|c r IH]; intros H f; [reflexivity|].
+  unfold copy_kids in *. simpl. rewrite IH.
+  - apply H. left. reflexivity.
+  - intros c' p' f' Hc'. apply H. right. exact Hc'.
+Qed.
+
+Lemma save_copy_rootlink t : forall p f, rootlink (save_copy p t f) = rootlink f.
+Proof.
+  induction t as [k a l IH] using tree_ind'. intros p f. rewrite save_copy_eq, put_all_rootlink.
+  rewrite copy_kids_rootlink; [rewrite w_link_rootlink; apply w_entity_rootlink|].
+  rewrite Forall_forall in IH. intros c p' f' Hc. apply IH. exact Hc.
+Qed.
+
+(* the file written by close *)
+Definition sweep_file (w : ws) (k : kind) : file :=
+  del_all (filter (fun x => kind_eqb (fst x) k) (wpend w)) (wfile w).
+
+Lemma do_sweep_file w k : wfile (do_sweep w k) = sweep_file w k.
+Proof. reflexivity. Qed.
+
+Lemma close_file_file w :
+  wfile (close_file w) = save_kids (tkey (wmem w)) (tkids (wmem w)) (w_entity (tkey (wmem w)) (tattrs (wmem w)) (sweep_file w KG)).
+Proof. unfold close_file. simpl. destruct (wmem w) as [k a l]. reflexivity. Qed.
+
+Lemma close_file_mem w : wmem (close_file w) = wmem w.
+Proof. unfold close_file. simpl. destruct (wmem w) as [k a l]. reflexivity. Qed.
+
+Lemma close_file_pend w : wpend (close_file w) = filter (fun x => negb (kind_eqb (fst x) KG)) (wpend w).
+Proof. unfold close_file. simpl. destruct (wmem w) as [k a l]. reflexivity. Qed.
+
+Lemma reopen_file w : wfile (fst (do_reopen w)) = wfile (close_file w).
+Proof.
+  unfold do_reopen. destruct (rootlink (wfile (close_file w))) as [[r ad]|]; [|reflexivity].
+  destruct (load _ _ _ r) as [[t sn]|]; reflexivity.
+Qed.
+
+Lemma close_file_frame w y :
+  ~ In y (filter (fun x => kind_eqb (fst x) KG) (wpend w) ++ keys_of (wmem w)) ->
+  fget y (flat (wfile (close_file w))) = fget y (flat (wfile w)).
+Proof.
+  intros H. rewrite close_file_file. destruct (wmem w) as [k a l]. simpl.
+  assert (Hk : y <> k) by (intros ->; apply H; apply in_or_app; right; left; reflexivity).
+  rewrite save_kids_frame'; [|exact Hk | intros Hl; apply H; apply in_or_app; right; right; exact Hl].
+  rewrite w_entity_frame by exact Hk. unfold sweep_file. apply del_all_frame.
+  intros Hd. apply H. apply in_or_app. left. exact Hd.
+Qed.
+
+Lemma close_file_rootlink w : rootlink (wfile (close_file w)) = rootlink (wfile w).
+Proof.
+  rewrite close_file_file. rewrite save_kids_rootlink by (intros; apply save_tree_rootlink).
+  rewrite w_entity_rootlink. unfold sweep_file. apply del_all_rootlink.
+Qed.
+
+Theorem step_frame : forall w o x, ~ In x (footprint w o) ->
+  fget x (flat (wfile (fst (step w o)))) = fget x (flat (wfile w)).
+Proof.
+  intros w o x Hx.
+  destruct o as [k u p nm ar | e n | e b | e v | e q | e | e | k | | o g nm ms | o g | e q ids]; unfold step.
+  - (* Create *) simpl in Hx. unfold do_create. destruct (find p (wmem w)); [|reflexivity].
+    destruct (negb (can_hold (fst p) k) || mem_key (k, u) (keys_of (wmem w))); [reflexivity|]. simpl.
+    rewrite w_link_frame by (intros ->; apply Hx; right; left; reflexivity).
+    apply w_entity_frame. intros ->. apply Hx. left. reflexivity.
+  - simpl in Hx. unfold do_set. destruct (find e (wmem w)); [|reflexivity].
+    destruct (key_eqb e rootkey); [reflexivity|]. simpl.
+    apply w_scalars_frame. intros ->. apply Hx. left. reflexivity.
+  - simpl in Hx. unfold do_set. destruct (find e (wmem w)); [|reflexivity].
+    destruct (key_eqb e rootkey); [reflexivity|]. simpl.
+    apply w_scalars_frame. intros ->. apply Hx. left. reflexivity.
+  - simpl in Hx. unfold do_set. destruct (find e (wmem w)); [|reflexivity].
+    destruct (key_eqb e rootkey); [reflexivity|]. simpl.
+    apply w_array_frame. intros ->. apply Hx. left. reflexivity.
+  - (* Move *) unfold footprint, parent_list, subtree_keys in Hx. unfold do_move.
+    destruct (find e (wmem w)) as [te|]; [|reflexivity].
+    destruct (find q (wmem w)); [|reflexivity].
+    destruct (parent_of e (wmem w)) as [p|]; [|reflexivity].
+    destruct (negb (can_hold (fst q) (fst e)) || mem_key q (keys_of te) || key_eqb p q); [reflexivity|]. simpl.
+    rewrite save_tree_frame.
+    + apply w_unlink_frame. intros ->. apply Hx. left. reflexivity.
+    + intros ->. apply Hx. right. left. reflexivity.
+    + intros Hk. apply Hx. right. right. exact Hk.
+  - (* RemoveWs *) destruct (key_eqb e rootkey); [reflexivity|].
+    unfold footprint, parent_list, subtree_keys in Hx. unfold do_remove_ws.
+    destruct (find e (wmem w)) as [te|]; [|reflexivity].
+    destruct (parent_of e (wmem w)) as [p|]; [|reflexivity].
+    match goal with |- context [rm_ws p ?pp te (wfile w)] => set (ppgs := pp) end.
+    pose proof (rm_ws_frame te p ppgs (wfile w) x) as E.
+    destruct (rm_ws p ppgs te (wfile w)) as [f' ok]. destruct (rm_ws_done te) as [gone b]. simpl in *.
+    apply E; [intros ->; apply Hx; left; reflexivity | intros Hk; apply Hx; right; exact Hk].
+  - (* RemoveParent *) destruct (key_eqb e rootkey); [reflexivity|].
+    unfold footprint, parent_list in Hx. unfold do_remove_parent.
+    destruct (find e (wmem w)) as [te|]; [|reflexivity].
+    destruct (parent_of e (wmem w)) as [p|]; [|reflexivity]. simpl.
+    assert (Hp : x <> p) by (intros ->; apply Hx; left; reflexivity).
+    rewrite w_unlink_frame by exact Hp. destruct (fst e); try reflexivity. apply w_scrub_frame. exact Hp.
+  - (* Sweep *) simpl. apply del_all_frame. exact Hx.
+  - (* Reopen *) rewrite reopen_file. apply close_file_frame. exact Hx.
+  - (* PgAdd *) simpl in Hx. unfold do_pg_add. destruct (find o (wmem w)) as [t|]; [|reflexivity].
+    destruct (negb (kind_eqb (fst o) KO)); [reflexivity|].
+    destruct (filter (fun m => kind_eqb (fst m) KD && mem_key m (kid_keys t)) ms); [reflexivity|]. simpl.
+    apply w_pg_put_frame. intros ->. apply Hx. left. reflexivity.
+  - (* PgRemove *) simpl in Hx. unfold do_pg_remove. destruct (find o (wmem w)) as [t|]; [|reflexivity].
+    destruct (existsb (fun h => N.eqb (pg_id h) g) (apgs (tattrs t))); [|reflexivity]. simpl.
+    apply w_pg_del_frame. intros ->. apply Hx. left. reflexivity.
+  - (* Copy *) unfold footprint in Hx. unfold do_copy.
+    destruct (find e (wmem w)) as [te|]; [|reflexivity].
+    destruct (find q (wmem w)); [|reflexivity].
+    destruct (negb (can_hold (fst q) (fst e)) || mem_key q (keys_of te) || key_eqb e rootkey); [reflexivity|].
+    destruct (copy_sub te ids) as [[t' [|i r]]|]; try reflexivity.
+    destruct (existsb (fun k => mem_key k (keys_of (wmem w))) (keys_of t')); [reflexivity|]. simpl.
+    apply save_copy_frame; [intros ->; apply Hx; left; reflexivity | intros Hk; apply Hx; right; exact Hk].
+Qed.
+
+Theorem step_rootlink : forall w o, rootlink (wfile (fst (step w o))) = rootlink (wfile w).
+Proof.
+  intros w o.
+  destruct o as [k u p nm ar | e n | e b | e v | e q | e | e | k | | o g nm ms | o g | e q ids]; unfold step.
+  - unfold do_create. destruct (find p (wmem w)); [|reflexivity].
+    destruct (negb (can_hold (fst p) k) || mem_key (k, u) (keys_of (wmem w))); [reflexivity|]. simpl.
+    rewrite w_link_rootlink. apply w_entity_rootlink.
+  - unfold do_set. destruct (find e (wmem w)); [|reflexivity].
+    destruct (key_eqb e rootkey); [reflexivity|]. simpl. apply w_scalars_rootlink.
+  - unfold do_set. destruct (find e (wmem w)); [|reflexivity].
+    destruct (key_eqb e rootkey); [reflexivity|]. simpl. apply w_scalars_rootlink.
+  - unfold do_set. destruct (find e (wmem w)); [|reflexivity].
+    destruct (key_eqb e rootkey); [reflexivity|]. simpl. apply w_array_rootlink.
+  - unfold do_move.
+    destruct (find e (wmem w)) as [te|]; [|reflexivity].
+    destruct (find q (wmem w)); [|reflexivity].
+    destruct (parent_of e (wmem w)) as [p|]; [|reflexivity].
+    destruct (negb (can_hold (fst q) (fst e)) || mem_key q (keys_of te) || key_eqb p q); [reflexivity|]. simpl.
+    rewrite save_tree_rootlink. apply w_unlink_rootlink.
+  - destruct (key_eqb e rootkey); [reflexivity|]. unfold do_remove_ws.
+    destruct (find e (wmem w)) as [te|]; [|reflexivity].
+    destruct (parent_of e (wmem w)) as [p|]; [|reflexivity].
+    match goal with |- context [rm_ws p ?pp te (wfile w)] => set (ppgs := pp) end.
+    pose proof (rm_ws_rootlink te p ppgs (wfile w)) as E.
+    destruct (rm_ws p ppgs te (wfile w)) as [f' ok]. destruct (rm_ws_done te) as [gone b]. exact E.
+  - destruct (key_eqb e rootkey); [reflexivity|]. unfold do_remove_parent.
+    destruct (find e (wmem w)) as [te|]; [|reflexivity].
+    destruct (parent_of e (wmem w)) as [p|]; [|reflexivity]. simpl. rewrite w_unlink_rootlink.
+    destruct (fst e); try reflexivity. apply w_scrub_rootlink.
+  - simpl. apply del_all_rootlink.
+  - rewrite reopen_file. apply close_file_rootlink.
+  - unfold do_pg_add. destruct (find o (wmem w)) as [t|]; [|reflexivity].
+    destruct (negb (kind_eqb (fst o) KO)); [reflexivity|].
+    destruct (filter (fun m => kind_eqb (fst m) KD && mem_key m (kid_keys t)) ms); [reflexivity|]. simpl.
+    apply w_pg_put_rootlink.
+  - unfold do_pg_remove. destruct (find o (wmem w)) as [t|]; [|reflexivity].
+    destruct (existsb (fun h => N.eqb (pg_id h) g) (apgs (tattrs t))); [|reflexivity]. simpl. apply w_pg_del_rootlink.
+  - unfold do_copy.
+    destruct (find e (wmem w)) as [te|]; [|reflexivity].
+    destruct (find q (wmem w)); [|reflexivity].
+    destruct (negb (can_hold (fst q) (fst e)) || mem_key q (keys_of te) || key_eqb e rootkey); [reflexivity|].
+    destruct (copy_sub te ids) as [[t' [|i r]]|]; try reflexivity.
+    destruct (existsb (fun k => mem_key k (keys_of (wmem w))) (keys_of t')); [reflexivity|]. simpl.
+    apply save_copy_rootlink.
+Qed.
+
+(* ======================================================================================================== *)
+(* Rep toolkit                                                                                               *)
+(* ======================================================================================================== *)
+
+Definition addr_pres (m m' : flatmap) (c : key) : Prop :=
+  forall cn, fget c m = Some cn -> exists cn', fget c m' = Some cn' /\ faddr cn' = faddr cn.
+
+Lemma addr_pres_same m m' c : fget c m' = fget c m -> addr_pres m m' c.
+Proof. intros E cn H. exists cn. rewrite E. auto. Qed.
+
+Lemma node_matches_frame m m' r : node_matches m r -> fget (rkey r) m' = fget (rkey r) m ->
+  (forall c, In c (rkids r) -> addr_pres m m' c) -> node_matches m' r.
+Proof.
+  intros [n [Hg [Ha [Hnd [Hk Hl]]]]] E Hp. exists n. split; [rewrite E; exact Hg|].
+  split; [exact Ha|]. split; [exact Hnd|]. split; [exact Hk|].
+  intros c ad Hin. destruct (Hl c ad Hin) as [cn [Hc Had]].
+  assert (Hc' : In c (rkids r)).
+  { apply Hk. apply in_map_iff. exists (c, ad). split; [reflexivity | exact Hin]. }
+  destruct (Hp c Hc' cn Hc) as [cn' [Hc2 Had2]]. exists cn'. split; [exact Hc2 | congruence].
+Qed.
+
+Lemma node_matches_same m m' r : node_matches m r -> fget (rkey r) m' = fget (rkey r) m ->
+  (forall c, In c (rkids r) -> fget c m' = fget c m) -> node_matches m' r.
+Proof.
+  intros H E Hk. eapply node_matches_frame; [exact H | exact E |].
+  intros c Hc. apply addr_pres_same. apply Hk. exact Hc.
+Qed.
+
+Lemma in_keys_hole p a l1 te l2 x :
+  In x (keys_of (Node p a (l1 ++ te :: l2))) <->
+  p = x \/ In x (flat_map keys_of l1) \/ In x (keys_of te) \/ In x (flat_map keys_of l2).
+Proof. rewrite keys_of_eq, flat_map_app. simpl. rewrite !in_app_iff. tauto. Qed.
+
+Lemma in_keys_nohole p a l1 l2 x :
+  In x (keys_of (Node p a (l1 ++ l2))) <-> p = x \/ In x (flat_map keys_of l1) \/ In x (flat_map keys_of l2).
+Proof. rewrite keys_of_eq, flat_map_app. simpl. rewrite !in_app_iff. tauto. Qed.
+
+Lemma in_rows_hole p a l1 te l2 r :
+  In r (rows (Node p a (l1 ++ te :: l2))) <->
+  (p, a, map tkey (l1 ++ te :: l2)) = r \/ In r (flat_map rows l1) \/ In r (rows te) \/ In r (flat_map rows l2).
+Proof. rewrite rows_eq, flat_map_app. simpl. rewrite !in_app_iff. tauto. Qed.
+
+Lemma in_rows_nohole p a l1 l2 r :
+  In r (rows (Node p a (l1 ++ l2))) <->
+  (p, a, map tkey (l1 ++ l2)) = r \/ In r (flat_map rows l1) \/ In r (flat_map rows l2).
+Proof. rewrite rows_eq, flat_map_app. simpl. rewrite !in_app_iff. tauto. Qed.
+
+Lemma nodup_hole_remove p a l1 te l2 :
+  NoDup (keys_of (Node p a (l1 ++ te :: l2))) -> NoDup (keys_of (Node p a (l1 ++ l2))).
+Proof.
+  rewrite !keys_of_eq, !flat_map_app. simpl. intros H. inversion H as [|? ? Hn Hr]; subst.
+  apply nodup_app_iff in Hr. destruct Hr as [H1 [H2 H3]].
+  apply nodup_app_iff in H2. destruct H2 as [H4 [H5 H6]].
+  constructor.
+  - intros Hin. apply Hn. apply in_app_or in Hin. apply in_or_app.
+    destruct Hin as [Hin|Hin]; [left; exact Hin | right; apply in_or_app; right; exact Hin].
+  - apply nodup_app_iff. repeat split; [exact H1 | exact H5 |].
+    intros x Hx Hx2. apply (H3 x Hx). apply in_or_app. right. exact Hx2.
+Qed.
+
+(* replacing the subtree at a hole by one with the same root identifier *)
+Lemma rep_replace C s s' f f' P P' :
+  Rep (plug C s) f P ->
+  tkey s' = tkey s ->
+  NoDup (keys_of s') ->
+  (forall x, In x (keys_of s') -> ~ In x (ctx_keys C)) ->
+  NoDup (map fst (flat f')) ->
+  (forall r, In r (rows s') -> node_matches (flat f') r) ->
+  (forall x, In x (ctx_keys C) -> fget x (flat f') = fget x (flat f)) ->
+  addr_pres (flat f) (flat f') (tkey s) ->
+  (forall k n, fget k (flat f') = Some n -> In k (keys_of s') \/ In k (ctx_keys C) \/ In k P') ->
+  (forall k, In k P' -> ~ In k (keys_of s') /\ ~ In k (ctx_keys C)) ->
+  rootlink f' = rootlink f ->
+  (forall r, In r (rows s') -> pgs_ok r) ->
+  Rep (plug C s') f' P'.
+Proof.
+  intros R Hk Hnd Hdis Hfnd Hrows Hctx Hap Honly Hpend Hrl Hpgs.
+  destruct R as [Rroot Rnd Rfnd Rrows Ronly Rpend Rrl Rpgs].
+  constructor.
+  - rewrite <- Rroot. apply tkey_plug. exact Hk.
+  - apply keys_plug_nodup. apply keys_plug_nodup in Rnd. destruct Rnd as [_ [Hc _]]. repeat split; assumption.
+  - exact Hfnd.
+  - intros r Hr. apply rows_plug_in in Hr. destruct Hr as [Hr|Hr]; [apply Hrows; exact Hr|].
+    rewrite Hk in Hr. apply node_matches_frame with (m := flat f).
+    + apply Rrows. apply rows_plug_in. right. exact Hr.
+    + apply Hctx. eapply ctx_rows_key. exact Hr.
+    + intros c Hc. destruct (ctx_rows_kids _ _ _ _ Hr Hc) as [->|Hin];
+        [exact Hap | apply addr_pres_same; apply Hctx; exact Hin].
+  - intros k n Hg. rewrite keys_plug_in. destruct (Honly k n Hg) as [H|[H|H]]; auto.
+  - intros k Hin. rewrite keys_plug_in. destruct (Hpend k Hin). tauto.
+  - destruct Rrl as [n [Hg Hl]].
+    assert (Hr : addr_pres (flat f) (flat f') rootkey).
+    { rewrite <- Rroot. destruct (tkey_plug_in C s) as [E|Hin];
+        [rewrite <- E; exact Hap | apply addr_pres_same; apply Hctx; exact Hin]. }
+    destruct (Hr n Hg) as [n' [Hg' Ha']]. exists n'. split; [exact Hg'|]. rewrite Hrl, Hl, Ha'. reflexivity.
+  - intros r Hr. apply rows_plug_in in Hr. destruct Hr as [Hr|Hr]; [apply Hpgs; exact Hr|].
+    rewrite Hk in Hr. apply Rpgs. apply rows_plug_in. right. exact Hr.
+Qed.
+
+Lemma rep_pend_change t f P P' : Rep t f P ->
+  (forall k, In k P' -> In k P) ->
+  (forall k n, fget k (flat f) = Some n -> In k P -> In k P') ->
+  Rep t f P'.
+Proof.
+  intros [Rroot Rnd Rfnd Rrows Ronly Rpend Rrl Rpgs] H1 H2. constructor; try assumption.
+  - intros k n Hg. destruct (Ronly k n Hg) as [H|H]; [left; exact H | right; eapply H2; eassumption].
+  - intros k Hk. apply Rpend. apply H1. exact Hk.
+Qed.
+
+Lemma rep_pend_equiv t f P P' : Rep t f P -> (forall k, In k P <-> In k P') -> Rep t f P'.
+Proof.
+  intros R H. eapply rep_pend_change; [exact R | intros k; apply H | intros k n _; apply H].
+Qed.
+
+(* facts every Rep gives about the subtree at a hole *)
+Lemma rep_hole_facts C s f P : Rep (plug C s) f P ->
+  NoDup (keys_of s) /\
+  (forall x, In x (keys_of s) -> ~ In x (ctx_keys C)) /\
+  (forall r, In r (rows s) -> node_matches (flat f) r) /\
+  (forall k, In k P -> ~ In k (keys_of s) /\ ~ In k (ctx_keys C)) /\
+  (forall r, In r (rows s) -> pgs_ok r).
+Proof.
+  intros [Rroot Rnd Rfnd Rrows Ronly Rpend Rrl Rpgs]. apply keys_plug_nodup in Rnd. destruct Rnd as [H1 [H2 H3]].
+  split; [exact H1|]. split; [exact H3|]. split; [intros r Hr; apply Rrows; apply rows_plug_in; left; exact Hr|].
+  split; [|intros r Hr; apply Rpgs; apply rows_plug_in; left; exact Hr].
+  intros k H. split; intros Hk; apply (Rpend k H); apply keys_plug_in; [left|right]; exact Hk.
+Qed.
+
+(* ---- attribute update ---- *)
+Lemma rep_attrs C x a l a' f f' P n n' :
+  Rep (plug C (Node x a l)) f P ->
+  fget x (flat f) = Some n ->
+  fget x (flat f') = Some n' -> attrs_equiv (fattrs n') a' -> faddr n' = faddr n -> flinks n' = flinks n ->
+  (forall y, y <> x -> fget y (flat f') = fget y (flat f)) ->
+  NoDup (map fst (flat f')) -> rootlink f' = rootlink f ->
+  pgs_ok (x, a', map tkey l) ->
+  Rep (plug C (Node x a' l)) f' P.
+Proof.
+  intros R Hn Hn' Ha' Had Hli Hfr Hfnd Hrl Hpg.
+  destruct (rep_hole_facts _ _ _ _ R) as [Hnd [Hdis [Hrows [Hpend Hpgs]]]].
+  assert (Hxl : ~ In x (flat_map keys_of l)) by (rewrite keys_of_eq in Hnd; inversion Hnd; assumption).
+  apply rep_replace with (s := Node x a l) (f := f) (P := P); try assumption.
+  - reflexivity.
+  - intros r Hr. rewrite rows_eq in Hr. destruct Hr as [<-|Hr].
+    + destruct (Hrows (x, a, map tkey l)) as [n0 [Hg0 [Ha0 [Hnd0 [Hk0 Hl0]]]]]; [rewrite rows_eq; left; reflexivity|].
+      unfold rkey, rattrs, rkids in *. simpl in *. rewrite Hn in Hg0. inversion Hg0; subst n0.
+      exists n'. unfold rkey, rattrs, rkids. simpl. rewrite Hli.
+      split; [exact Hn'|]. split; [exact Ha'|]. split; [exact Hnd0|]. split; [exact Hk0|].
+      { intros c ad Hin. destruct (Hl0 c ad Hin) as [cn [Hc Hcad]]. exists cn. split; [|exact Hcad].
+        rewrite Hfr; [exact Hc|]. intros ->. apply Hxl. apply tkeys_sub. apply Hk0.
+        apply in_map_iff. exists (x, ad). split; [reflexivity | exact Hin]. }
+    + apply node_matches_same with (m := flat f).
+      * apply Hrows. rewrite rows_eq. right. exact Hr.
+      * apply Hfr. intros E. apply Hxl. rewrite <- E. apply rows_list_keys. exact Hr.
+      * intros c Hc. apply Hfr. intros ->. apply Hxl. eapply rows_list_kids; eassumption.
+  - intros y Hy. apply Hfr. intros ->. apply (Hdis x); [left; reflexivity | exact Hy].
+  - intros cn Hc. simpl in Hc. rewrite Hn in Hc. inversion Hc; subst cn. exists n'. split; assumption.
+  - intros k n0 Hg. destruct (key_dec k x) as [->|Hne]; [left; left; reflexivity|].
+    rewrite Hfr in Hg by exact Hne. destruct (rep_only _ _ _ R k n0 Hg) as [H|H]; [|right; right; exact H].
+    apply keys_plug_in in H. destruct H as [H|H]; [left; exact H | right; left; exact H].
+  - intros r Hr. rewrite rows_eq in Hr. destruct Hr as [<-|Hr]; [exact Hpg | apply Hpgs; rewrite rows_eq; right; exact Hr].
+Qed.
+
+(* ---- detaching a child subtree (removal through the parent) ---- *)
+Lemma rep_detach C p a l1 te l2 f P :
+  Rep (plug C (Node p a (l1 ++ te :: l2))) f P ->
+  (forall g, In g (apgs a) -> ~ In (tkey te) (pg_members g)) ->
+  Rep (plug C (Node p a (l1 ++ l2))) (w_unlink p (tkey te) f) (P ++ keys_of te).
+Proof.
+  intros R Hnm. destruct (rep_hole_facts _ _ _ _ R) as [Hnd [Hdis [Hrows [Hpend Hpgs]]]].
+  assert (Hpg0 : pgs_ok (p, a, map tkey (l1 ++ te :: l2))) by (apply Hpgs; rewrite rows_eq; left; reflexivity).
+  assert (Hpgl : forall r, In r (flat_map rows (l1 ++ te :: l2)) -> pgs_ok r)
+    by (intros r Hr; apply Hpgs; rewrite rows_eq; right; exact Hr).
+  clear Hpgs.
+  pose proof (nodup_hole _ _ _ _ _ Hnd) as [Hte [Hpte Hd]].
+  pose proof (nodup_hole_remove _ _ _ _ _ Hnd) as Hnd'.
+  assert (Hsub : forall x, In x (keys_of (Node p a (l1 ++ l2))) -> In x (keys_of (Node p a (l1 ++ te :: l2)))).
+  { intros x. rewrite in_keys_hole, in_keys_nohole. tauto. }
+  assert (Hp1 : ~ In p (flat_map keys_of (l1 ++ l2))) by (rewrite keys_of_eq in Hnd'; inversion Hnd'; assumption).
+  assert (Hp0 : ~ In p (flat_map keys_of (l1 ++ te :: l2))) by (rewrite keys_of_eq in Hnd; inversion Hnd; assumption).
+  destruct (Hrows (p, a, map tkey (l1 ++ te :: l2))) as [pn [Hg [Ha [Hlnd [Hk Hl]]]]]; [rewrite rows_eq; left; reflexivity|].
+  unfold rkey, rattrs, rkids in *. simpl in *.
+  pose proof (w_unlink_same p (tkey te) f pn Hg) as Hg'.
+  assert (Hfr : forall y, y <> p -> fget y (flat (w_unlink p (tkey te) f)) = fget y (flat f)).
+  { intros y Hy. apply w_unlink_frame. exact Hy. }
+  apply rep_replace with (s := Node p a (l1 ++ te :: l2)) (f := f) (P := P).
+  - exact R.
+  - reflexivity.
+  - exact Hnd'.
+  - intros x Hx. apply Hdis. apply Hsub. exact Hx.
+  - apply w_unlink_nodup. exact (rep_flatnd _ _ _ R).
+  - intros r Hr. rewrite rows_eq in Hr. destruct Hr as [<-|Hr].
+    + eexists. unfold rkey, rattrs, rkids. simpl. split; [exact Hg'|]. simpl.
+      split; [exact Ha|]. split; [apply ldel_keys_NoDup; exact Hlnd|]. split.
+      * intros c. rewrite (ldel_keys_In (tkey te) (flinks pn) c Hlnd). rewrite Hk.
+        rewrite !map_app. simpl. rewrite !in_app_iff. simpl.
+        assert (H1 : In c (map tkey l1) -> c <> tkey te).
+        { intros Hc ->. apply (proj1 (Hd (tkey te) (tkey_in_keys te))). apply tkeys_sub. exact Hc. }
+        assert (H2 : In c (map tkey l2) -> c <> tkey te).
+        { intros Hc ->. apply (proj2 (Hd (tkey te) (tkey_in_keys te))). apply tkeys_sub. exact Hc. }
+        split; [intros [Hne [H|[H|H]]]; [left; exact H | congruence | right; exact H]
+               | intros [H|H]; [split; [apply H1; exact H | left; exact H] | split; [apply H2; exact H | right; right; exact H]]].
+      * intros c ad Hin. apply ldel_In in Hin. destruct (Hl c ad Hin) as [cn [Hc Hcad]]. exists cn. split; [|exact Hcad].
+        rewrite Hfr; [exact Hc|]. intros ->. apply Hp0. apply tkeys_sub. apply Hk.
+        apply in_map_iff. exists (p, ad). split; [reflexivity | exact Hin].
+    + assert (Hr0 : In r (flat_map rows (l1 ++ te :: l2))).
+      { rewrite flat_map_app in *. simpl. apply in_app_or in Hr. apply in_or_app.
+        destruct Hr as [Hr|Hr]; [left; exact Hr | right; apply in_or_app; right; exact Hr]. }
+      apply node_matches_same with (m := flat f).
+      * apply Hrows. right. exact Hr0.
+      * apply Hfr. intros E. apply Hp0. rewrite <- E. apply rows_list_keys. exact Hr0.
+      * intros c Hc. apply Hfr. intros ->. apply Hp0. eapply rows_list_kids; eassumption.
+  - intros y Hy. apply Hfr. intros ->. apply (Hdis p); [left; reflexivity | exact Hy].
+  - intros cn Hc. simpl in Hc. rewrite Hg in Hc. inversion Hc; subst cn. eexists. split; [exact Hg' | reflexivity].
+  - intros k n0 Hk0. destruct (key_dec k p) as [->|Hne]; [left; left; reflexivity|].
+    rewrite Hfr in Hk0 by exact Hne. destruct (rep_only _ _ _ R k n0 Hk0) as [H|H].
+    + apply keys_plug_in in H. destruct H as [H|H]; [|right; left; exact H].
+      apply in_keys_hole in H. rewrite in_keys_nohole, in_app_iff. tauto.
+    + right. right. apply in_or_app. left. exact H.
+  - intros k Hk0. apply in_app_or in Hk0. destruct Hk0 as [Hk0|Hk0].
+    + destruct (Hpend k Hk0) as [H1 H2]. split; [intros H; apply H1; apply Hsub; exact H | exact H2].
+    + split.
+      * rewrite in_keys_nohole. intros [<-|[H|H]]; [exact (Hpte Hk0) | exact (proj1 (Hd k Hk0) H) | exact (proj2 (Hd k Hk0) H)].
+      * apply Hdis. apply (in_keys_hole p a l1 te l2 k). right. right. left. exact Hk0.
+  - apply w_unlink_rootlink.
+  - intros r Hr. rewrite rows_eq in Hr. destruct Hr as [<-|Hr].
+    + destruct Hpg0 as [G1 [G2 G3]]. split; [exact G1|]. split; [exact G2|].
+      intros g m Hgg Hmm. destruct (G3 g m Hgg Hmm) as [Hin Hkd]. split; [|exact Hkd].
+      unfold rkids in Hin. unfold rkids. simpl in Hin. simpl. rewrite map_app in Hin. rewrite map_app. simpl in Hin.
+      apply in_app_or in Hin. apply in_or_app.
+      destruct Hin as [Hin|[Hin|Hin]]; [left; exact Hin | exfalso; apply (Hnm g Hgg); rewrite Hin; exact Hmm | right; exact Hin].
+    + apply Hpgl. rewrite flat_map_app in *. simpl. apply in_app_or in Hr. apply in_or_app.
+      destruct Hr as [Hr|Hr]; [left; exact Hr | right; apply in_or_app; right; exact Hr].
+Qed.
+
+(* ---- attaching an orphan subtree under an entity of the tree (creation, second half of a move) ---- *)
+Lemma rep_attach C q a l te f P0 P' :
+  Rep (plug C (Node q a l)) f P0 ->
+  NoDup (keys_of te) ->
+  (forall r, In r (rows te) -> node_matches (flat f) r) ->
+  (forall r, In r (rows te) -> pgs_ok r) ->
+  (forall k, In k (keys_of te) -> In k P0) ->
+  (forall k, In k P0 -> In k P' \/ In k (keys_of te)) ->
+  (forall k, In k P' -> In k P0 /\ ~ In k (keys_of te)) ->
+  Rep (plug C (Node q a (l ++ [te]))) (w_link q (tkey te) f) P'.
+Proof.
+  intros R Hte Hrte Hpte Hsub Hcov Hnew.
+  destruct (rep_hole_facts _ _ _ _ R) as [Hnd [Hdis [Hrows [Hpend Hpgs]]]].
+  assert (Hql : ~ In q (flat_map keys_of l)) by (rewrite keys_of_eq in Hnd; inversion Hnd; assumption).
+  assert (Hfresh : forall k, In k (keys_of te) -> ~ In k (keys_of (Node q a l)) /\ ~ In k (ctx_keys C)).
+  { intros k Hk. apply Hpend. apply Hsub. exact Hk. }
+  destruct (Hrows (q, a, map tkey l)) as [qn [Hg [Ha [Hlnd [Hk Hl]]]]]; [rewrite rows_eq; left; reflexivity|].
+  unfold rkey, rattrs, rkids in Hg, Ha, Hlnd, Hk, Hl. simpl in Hg, Ha, Hlnd, Hk, Hl.
+  destruct (Hrte (tkey te, tattrs te, map tkey (tkids te))) as [en [Hge _]].
+  { destruct te as [k' a' l']. rewrite rows_eq. left. reflexivity. }
+  unfold rkey in Hge. simpl in Hge.
+  assert (Heq : tkey te <> q).
+  { intros E. apply (proj1 (Hfresh (tkey te) (tkey_in_keys te))). rewrite E. left. reflexivity. }
+  assert (Hlg : lget (tkey te) (flinks qn) = None).
+  { apply lget_None_notin. intros Hin. apply Hk in Hin.
+    apply (proj1 (Hfresh (tkey te) (tkey_in_keys te))). right. apply tkeys_sub. exact Hin. }
+  pose proof (w_link_new q (tkey te) f qn en Hg Hge Hlg) as Hg'.
+  assert (Hfr : forall y, y <> q -> fget y (flat (w_link q (tkey te) f)) = fget y (flat f)).
+  { intros y Hy. apply w_link_frame. exact Hy. }
+  apply rep_replace with (s := Node q a l) (f := f) (P := P0).
+  - exact R.
+  - reflexivity.
+  - rewrite keys_of_eq, flat_map_app. simpl. rewrite app_nil_r. constructor.
+    + intros Hin. apply in_app_or in Hin. destruct Hin as [Hin|Hin]; [exact (Hql Hin)|].
+      apply (proj1 (Hfresh q Hin)). left. reflexivity.
+    + apply nodup_app_iff. repeat split.
+      * rewrite keys_of_eq in Hnd. inversion Hnd; assumption.
+      * exact Hte.
+      * intros x Hx Hx2. apply (proj1 (Hfresh x Hx2)). right. exact Hx.
+  - intros x Hx. rewrite keys_of_eq, flat_map_app in Hx. simpl in Hx. rewrite app_nil_r in Hx.
+    destruct Hx as [<-|Hx]; [apply Hdis; left; reflexivity|].
+    apply in_app_or in Hx. destruct Hx as [Hx|Hx]; [apply Hdis; right; exact Hx | apply Hfresh; exact Hx].
+  - apply w_link_nodup. exact (rep_flatnd _ _ _ R).
+  - intros r Hr. rewrite rows_eq, flat_map_app in Hr. simpl in Hr. rewrite app_nil_r in Hr.
+    destruct Hr as [<-|Hr].
+    + eexists. unfold rkey, rattrs, rkids. simpl. split; [exact Hg'|]. simpl.
+      split; [exact Ha|]. rewrite map_app. simpl. split.
+      { apply nodup_app_iff. repeat split; [exact Hlnd | constructor; [intros [] | constructor] |].
+        intros x Hx [<-|[]]. apply lget_None_notin in Hlg. exact (Hlg Hx). }
+      split.
+      * intros c. rewrite map_app, !in_app_iff. simpl. rewrite Hk. tauto.
+      * intros c ad Hin. apply in_app_or in Hin. destruct Hin as [Hin|[Hin|[]]].
+        -- destruct (Hl c ad Hin) as [cn [Hc Hcad]]. exists cn. split; [|exact Hcad].
+           rewrite Hfr; [exact Hc|]. intros ->. apply Hql. apply tkeys_sub. apply Hk.
+           apply in_map_iff. exists (q, ad). split; [reflexivity | exact Hin].
+        -- inversion Hin; subst. exists en. split; [|reflexivity]. rewrite Hfr by exact Heq. exact Hge.
+    + apply in_app_or in Hr. destruct Hr as [Hr|Hr].
+      * apply node_matches_same with (m := flat f).
+        -- apply Hrows. rewrite rows_eq. right. exact Hr.
+        -- apply Hfr. intros E. apply Hql. rewrite <- E. apply rows_list_keys. exact Hr.
+        -- intros c Hc. apply Hfr. intros ->. apply Hql. eapply rows_list_kids; eassumption.
+      * apply node_matches_same with (m := flat f).
+        -- apply Hrte. exact Hr.
+        -- apply Hfr. intros E.
+           assert (Hq : In q (keys_of te)) by (rewrite <- E; apply rows_keys; exact Hr).
+           apply (proj1 (Hfresh q Hq)). left. reflexivity.
+        -- intros c Hc. apply Hfr. intros ->.
+           assert (Hq : In q (keys_of te)) by (eapply rows_kids_keys; eassumption).
+           apply (proj1 (Hfresh q Hq)). left. reflexivity.
+  - intros y Hy. apply Hfr. intros ->. apply (Hdis q); [left; reflexivity | exact Hy].
+  - intros cn Hc. simpl in Hc. rewrite Hg in Hc. inversion Hc; subst cn. eexists. split; [exact Hg' | reflexivity].
+  - intros k n0 Hk0. destruct (key_dec k q) as [->|Hne]; [left; left; reflexivity|].
+    rewrite Hfr in Hk0 by exact Hne. destruct (rep_only _ _ _ R k n0 Hk0) as [H|H].
+    + apply keys_plug_in in H. destruct H as [H|H]; [|right; left; exact H].
+      left. rewrite keys_of_eq in H. rewrite keys_of_eq, flat_map_app. simpl.
+      destruct H as [H|H]; [left; exact H | right; apply in_or_app; left; exact H].
+    + destruct (Hcov k H) as [H'|H']; [right; right; exact H'|].
+      left. rewrite keys_of_eq, flat_map_app. simpl. rewrite app_nil_r. right. apply in_or_app. right. exact H'.
+  - intros k Hk0. destruct (Hnew k Hk0) as [H1 H2]. destruct (Hpend k H1) as [H3 H4]. split; [|exact H4].
+    rewrite keys_of_eq, flat_map_app. simpl. rewrite app_nil_r. rewrite keys_of_eq in H3.
+    intros [H|H]; [apply H3; left; exact H|]. apply in_app_or in H.
+    destruct H as [H|H]; [apply H3; right; exact H | exact (H2 H)].
+  - apply w_link_rootlink.
+  - intros r Hr. rewrite rows_eq, flat_map_app in Hr. simpl in Hr. rewrite app_nil_r in Hr. destruct Hr as [<-|Hr].
+    + destruct (Hpgs (q, a, map tkey l)) as [G1 [G2 G3]]; [rewrite rows_eq; left; reflexivity|].
+      split; [exact G1|]. split; [exact G2|]. intros g m Hgg Hmm. destruct (G3 g m Hgg Hmm) as [Hin Hkd]. split; [|exact Hkd].
+      unfold rkids in Hin. unfold rkids. simpl in Hin. simpl. rewrite map_app. apply in_or_app. left. exact Hin.
+    + apply in_app_or in Hr. destruct Hr as [Hr|Hr]; [apply Hpgs; rewrite rows_eq; right; exact Hr | apply Hpte; exact Hr].
+Qed.
+
+(* ---- deleting flat nodes of pending identifiers ---- *)
+Lemma rep_delete t f P D P' : Rep t f P ->
+  (forall d, In d D -> In d P) ->
+  (forall k, In k P -> In k D \/ In k P') ->
+  (forall k, In k P' -> In k P) ->
+  Rep t (del_all D f) P'.
+Proof.
+  intros [Rroot Rnd Rfnd Rrows Ronly Rpend Rrl Rpgs] HD Hcov Hsub.
+  assert (Hfr : forall y, In y (keys_of t) -> fget y (flat (del_all D f)) = fget y (flat f)).
+  { intros y Hy. apply del_all_frame. intros Hd. exact (Rpend y (HD y Hd) Hy). }
+  constructor.
+  - exact Rroot.
+  - exact Rnd.
+  - apply del_all_nodup. exact Rfnd.
+  - intros r Hr. apply node_matches_same with (m := flat f).
+    + apply Rrows. exact Hr.
+    + apply Hfr. apply rows_keys. exact Hr.
+    + intros c Hc. apply Hfr. eapply rows_kids_keys; eassumption.
+  - intros k n Hg. apply del_all_Some in Hg; [|exact Rfnd]. destruct Hg as [Hd Hg].
+    destruct (Ronly k n Hg) as [H|H]; [left; exact H|].
+    destruct (Hcov k H) as [H'|H']; [contradiction | right; exact H'].
+  - intros k Hk. apply Rpend. apply Hsub. exact Hk.
+  - destruct Rrl as [n [Hg Hl]]. exists n. split.
+    + rewrite Hfr; [exact Hg|]. rewrite <- Rroot. apply tkey_in_keys.
+    + rewrite del_all_rootlink. exact Hl.
+  - exact Rpgs.
+Qed.
+
+(* ---- writing a fresh flat node that nothing links to ---- *)
+Lemma rep_add_orphan t f P x a : Rep t f P -> fget x (flat f) = None -> ~ In x (keys_of t) ->
+  Rep t (w_entity x a f) (x :: P).
+Proof.
+  intros [Rroot Rnd Rfnd Rrows Ronly Rpend Rrl Rpgs] Hx Hnx.
+  assert (Hfr : forall y, In y (keys_of t) -> fget y (flat (w_entity x a f)) = fget y (flat f)).
+  { intros y Hy. apply w_entity_frame. intros ->. exact (Hnx Hy). }
+  constructor.
+  - exact Rroot.
+  - exact Rnd.
+  - apply w_entity_nodup. exact Rfnd.
+  - intros r Hr. apply node_matches_same with (m := flat f).
+    + apply Rrows. exact Hr.
+    + apply Hfr. apply rows_keys. exact Hr.
+    + intros c Hc. apply Hfr. eapply rows_kids_keys; eassumption.
+  - intros k n Hg. destruct (key_dec k x) as [->|Hne]; [right; left; reflexivity|].
+    rewrite w_entity_frame in Hg by exact Hne.
+    destruct (Ronly k n Hg) as [H|H]; [left; exact H | right; right; exact H].
+  - intros k [<-|Hk]; [exact Hnx | apply Rpend; exact Hk].
+  - destruct Rrl as [n [Hg Hl]]. exists n. split.
+    + rewrite Hfr; [exact Hg|]. rewrite <- Rroot. apply tkey_in_keys.
+    + rewrite w_entity_rootlink. exact Hl.
+  - exact Rpgs.
+Qed.
+
+(* ---- re-visiting stored entities rewrites nothing ---- *)
+Definition stored (m : flatmap) (t : tree) : Prop :=
+  forall r, In r (rows t) ->
+  exists n, fget (rkey r) m = Some n /\ forall c, In c (rkids r) -> exists ad, lget c (flinks n) = Some ad.
+
+Lemma node_matches_stored m t : (forall r, In r (rows t) -> node_matches m r) -> stored m t.
+Proof.
+  intros H r Hr. destruct (H r Hr) as [n [Hg [_ [_ [Hk _]]]]]. exists n. split; [exact Hg|].
+  intros c Hc. apply lget_In_Some. apply Hk. exact Hc.
+Qed.
+
+Lemma save_kids_fix k l f : (forall c, In c l -> save_tree k c f = f) -> save_kids k l f = f.
+Proof.
+  induction l as [|c r IH]; intros H; [reflexivity|].
+  unfold save_kids in *. simpl. rewrite (H c (or_introl eq_refl)). apply IH.
+  intros c' Hc'. apply H. right. exact Hc'.
+Qed.
+
+Lemma save_tree_stored t : forall p f, stored (flat f) t -> save_tree p t f = w_link p (tkey t) f.
+Proof.
+  induction t as [k a l IH] using tree_ind'. intros p f Hs. rewrite save_tree_eq. simpl.
+  destruct (Hs (k, a, map tkey l)) as [n [Hg Hk]]; [rewrite rows_eq; left; reflexivity|].
+  unfold rkey, rkids in Hg, Hk. simpl in Hg, Hk.
+  rewrite (w_entity_old k a f n Hg). rewrite save_kids_fix; [reflexivity|].
+  intros c Hc. rewrite Forall_forall in IH. rewrite (IH c Hc).
+  - destruct (Hk (tkey c)) as [ad Had]; [apply in_map; exact Hc|].
+    destruct (Hs (tkey c, tattrs c, map tkey (tkids c))) as [cn [Hgc _]].
+    { rewrite rows_eq. right. apply in_flat_map. exists c. split; [exact Hc|].
+      destruct c as [k' a' l']. rewrite rows_eq. left. reflexivity. }
+    unfold rkey in Hgc. simpl in Hgc. eapply w_link_old; eassumption.
+  - intros r Hr. apply Hs. rewrite rows_eq. right. apply in_flat_map. exists c. split; assumption.
+Qed.
+
+Lemma save_kids_stored k a l f : stored (flat f) (Node k a l) -> save_kids k l (w_entity k a f) = f.
+Proof.
+  intros Hs.
+  destruct (Hs (k, a, map tkey l)) as [n [Hg Hk]]; [rewrite rows_eq; left; reflexivity|].
+  unfold rkey, rkids in Hg, Hk. simpl in Hg, Hk.
+  rewrite (w_entity_old k a f n Hg). apply save_kids_fix.
+  intros c Hc. rewrite save_tree_stored.
+  - destruct (Hk (tkey c)) as [ad Had]; [apply in_map; exact Hc|].
+    destruct (Hs (tkey c, tattrs c, map tkey (tkids c))) as [cn [Hgc _]].
+    { rewrite rows_eq. right. apply in_flat_map. exists c. split; [exact Hc|].
+      destruct c as [k' a' l']. rewrite rows_eq. left. reflexivity. }
+    unfold rkey in Hgc. simpl in Hgc. eapply w_link_old; eassumption.
+  - intros r Hr. apply Hs. rewrite rows_eq. right. apply in_flat_map. exists c. split; assumption.
+Qed.
+
+(* the save_entity that follows a move only adds the link under the new parent *)
+Lemma move_file C p a l1 te l2 f P q :
+  Rep (plug C (Node p a (l1 ++ te :: l2))) f P ->
+  save_tree q te (w_unlink p (tkey te) f) = w_link q (tkey te) (w_unlink p (tkey te) f).
+Proof.
+  intros R. destruct (rep_hole_facts _ _ _ _ R) as [Hnd [Hdis [Hrows [Hpend Hpgs]]]].
+  pose proof (nodup_hole _ _ _ _ _ Hnd) as [Hte [Hpte Hd]].
+  apply save_tree_stored. intros r Hr.
+  destruct (node_matches_stored (flat f) te) with (r := r) as [n [Hg Hk]]; [|exact Hr|].
+  - intros r' Hr'. apply Hrows. apply in_rows_hole. right. right. left. exact Hr'.
+  - exists n. split; [|exact Hk]. rewrite w_unlink_frame; [exact Hg|].
+    intros E. apply Hpte. rewrite <- E. apply rows_keys. exact Hr.
+Qed.
+
+(* closing a file that represents the tree only sweeps the dead groups *)
+Lemma close_file_rep_file w P : Rep (wmem w) (wfile w) P -> (forall k, In k (wpend w) -> In k P) ->
+  wfile (close_file w) = sweep_file w KG /\ Rep (wmem w) (sweep_file w KG) P.
+Proof.
+  intros R Hin.
+  assert (R' : Rep (wmem w) (sweep_file w KG) P).
+  { unfold sweep_file. apply rep_delete with (P := P); [exact R | | intros k Hk; right; exact Hk | intros k Hk; exact Hk].
+    intros d Hd. apply filter_In in Hd. apply Hin. apply Hd. }
+  split; [|exact R'].
+  rewrite close_file_file. destruct (wmem w) as [k a l]. simpl. apply save_kids_stored.
+  apply node_matches_stored. exact (rep_rows _ _ _ R').
+Qed.
+
+Theorem step_frame_rep_gen : forall w o x P, Rep (wmem w) (wfile w) P -> (forall k, In k (wpend w) -> In k P) ->
+  ~ In x (footprint_rep w o) ->
+  fget x (flat (wfile (fst (step w o)))) = fget x (flat (wfile w)).
+Proof.
+  intros w o x P R Hin Hx.
+  destruct o as [k u p nm ar | e n | e b | e v | e q | e | e | k | | o g nm ms | o g | e q ids];
+    try (apply step_frame; exact Hx).
+  - (* Move *) unfold footprint_rep, parent_list in Hx. unfold step, do_move.
+    destruct (find e (wmem w)) as [te|] eqn:Fe; [|reflexivity].
+    destruct (find q (wmem w)); [|reflexivity].
+    destruct (parent_of e (wmem w)) as [p|] eqn:Pe; [|reflexivity].
+    destruct (negb (can_hold (fst q) (fst e)) || mem_key q (keys_of te) || key_eqb p q); [reflexivity|]. simpl.
+    destruct (child_ctx _ _ _ _ (rep_nodup _ _ _ R) Fe Pe) as [C [a [l1 [l2 [Ht Hk]]]]].
+    rewrite Ht in R. subst e. rewrite (move_file _ _ _ _ _ _ _ _ q R).
+    rewrite w_link_frame by (intros ->; apply Hx; right; left; reflexivity).
+    apply w_unlink_frame. intros ->. apply Hx. left. reflexivity.
+  - (* Reopen *) unfold step. rewrite reopen_file.
+    destruct (close_file_rep_file w P R Hin) as [-> _]. unfold sweep_file. apply del_all_frame. exact Hx.
+Qed.
+
+Theorem step_frame_rep : forall w o x, Rep (wmem w) (wfile w) (wpend w) -> ~ In x (footprint_rep w o) ->
+  fget x (flat (wfile (fst (step w o)))) = fget x (flat (wfile w)).
+Proof. intros w o x R. apply step_frame_rep_gen with (P := wpend w); [exact R | intros k Hk; exact Hk]. Qed.
+
